@@ -127,7 +127,9 @@ typedef std::vector<LzhToken> LzhTokens;
 
 // Encode a token list. Stops before a token whose tree update would exceed the counter capacity.
 // uncapped: keep encoding past that point (32-bit counters), producing a stream that NEEDS more updates than 16-bit counters hold.
+inline int& lzhLongestCodeBits() { static int m = 0; return m; } // of the last lzhEncode call
 inline std::vector<uint8_t> lzhEncode(const LzhTokens& toks, size_t* encodedTokens = nullptr, bool uncapped = false) {
+	lzhLongestCodeBits() = 0;
 	using namespace lzh;
 	Tree t;
 	unsigned char d_code[256], d_len[256];
@@ -146,6 +148,7 @@ inline std::vector<uint8_t> lzhEncode(const LzhTokens& toks, size_t* encodedToke
 		int k = t.prnt[c + T];
 		int bits[700], nb = 0;
 		while (k != R) { bits[nb++] = k & 1; k = t.prnt[k]; }
+		if (nb > lzhLongestCodeBits()) lzhLongestCodeBits() = nb;
 		for (int i = nb - 1; i >= 0; --i) putBit(bits[i]);
 		t.update(c);
 		if (tk.match) {
@@ -211,6 +214,38 @@ inline LzhTokens skewedTokens(uint64_t seed, size_t n, uint64_t num, uint64_t de
 		if (r.chance(num, den)) { toks.push_back(dom); continue; }
 		if (r.chance(2, 3)) toks.push_back(LzhToken{false, static_cast<uint8_t>(r.chance(1, 2) ? r.below(256) : 'a' + r.below(6)), 0, 0});
 		else { unsigned hi = static_cast<unsigned>(r.below(64)); toks.push_back(LzhToken{true, 0, static_cast<uint16_t>(3 + r.below(58)), static_cast<uint16_t>((hi << 6) | r.below(64))}); }
+	}
+	return toks;
+}
+
+// Token lists whose symbol frequencies grow like the Fibonacci numbers: the shape that makes a Huffman tree as deep as it can get for
+// a given number of codes (the counts are never rescaled, so depths beyond 16 and 18 are reachable below the counter capacity). The
+// frequent symbols come first, interleaved; then symbols seen never or rarely before, whose codes are the long ones.
+inline LzhTokens fibonacciTokens(uint64_t seed, size_t levels, size_t tail, uint64_t base = 1) {
+	LzhTokens toks;
+	Rng r(seed ^ 0x666962);
+	std::vector<LzhToken> sym;
+	std::vector<uint64_t> left;
+	uint64_t a = base, b = base; // base > 1: the chain starts above the weight of all the symbols never used (each counts 1 from the start)
+	for (size_t j = 0; j < levels; ++j) {
+		if (r.chance(1, 5)) sym.push_back(LzhToken{true, 0, static_cast<uint16_t>(3 + (j * 7 + seed) % 58), static_cast<uint16_t>(r.below(64))});
+		else sym.push_back(LzhToken{false, static_cast<uint8_t>((seed + j * 11) & 0xff), 0, 0});
+		left.push_back(a);
+		uint64_t c = a + b; a = b; b = c;
+	}
+	bool more = true;
+	while (more) {
+		more = false;
+		// one round: every symbol emits a share proportional to what it still owes (keeps the running counts Fibonacci-like all the way)
+		for (size_t j = levels; j-- > 0;) {
+			uint64_t share = (left[j] + 15) / 16;
+			for (uint64_t q = 0; q < share && left[j]; ++q, --left[j]) toks.push_back(sym[j]);
+			if (left[j]) more = true;
+		}
+	}
+	for (size_t i = 0; i < tail; ++i) {
+		if (r.chance(3, 4)) toks.push_back(LzhToken{false, static_cast<uint8_t>(r.below(256)), 0, 0});
+		else toks.push_back(LzhToken{true, 0, static_cast<uint16_t>(3 + r.below(58)), static_cast<uint16_t>((r.below(64) << 6) | r.below(64))});
 	}
 	return toks;
 }
